@@ -191,8 +191,8 @@ def run_shape(chk, ns, nq, np_, nv, n_sym_T, acoustic_zero=True):
     divisor_obligations(chk, tag)
 
     # ---- vacuity witnesses ----------------------------------------------------------------
-    w = Z.satisfiable([("!=", expected["long_th"][nt - 1, 0]), ("!=", expected["off_zp"][0])],
-                      name=tag + ":witness", timeout_ms=20000)
+    w = Z.witness([("!=", expected["long_th"][nt - 1, 0]), ("!=", expected["off_zp"][0])],
+                      name=tag + ":witness", timeout_ms=20000, rng=rng)
     chk.witness(tag + ":assumptions-satisfiable-and-oracle-nonzero", w[0])
     chk.sample(dict(shape=tag, obligation="long_zp[0] == A_zp/(5 e^2) + P_zp/(3 e)",
                     code=Sym.of(res["long_zp"][0]).short(3), oracle=Sym.of(expected["long_zp"][0]).short(3)))
